@@ -546,7 +546,63 @@ def build(active_known=frozenset()):
 
     c.replay(rp_ctx)
     c.replay_without_model = True
+    pack.extra.append(thread_bindings_bounded)
+    pack.assume("BOUNDED (not proved): runtime.get_thread_bindings - what future / pmap / bound-fn convey - is run concretely for every nesting of up to three binding frames over three Vars")
     return pack
+
+
+def thread_bindings_bounded(tier, seed):
+    '''bounded stand-in for runtime.get_thread_bindings (a loop over the frame stack with a dict comprehension over each frame's set of
+    Vars: outside the executor): the real function is run for every nesting of 0..3 binding frames, each binding a non-empty subset of three
+    dynamic Vars, and compared with the spec - the map of every Var bound by any open frame to its current (innermost) value'''
+    import os
+
+    from pyvc.run import REPLAY_DIR, run_snippet
+
+    p = os.path.join(REPLAY_DIR, "C11", "thread_bindings_bounded.py")
+    failed, outp = run_snippet("# bounded check for property C11\n# function: basilisp.lang.runtime:get_thread_bindings\n" + BINDINGS_BOUNDED, p)
+    ran = "cases " in outp
+    rec = {"name": "[bounded: every nesting of up to three binding frames over three Vars, 400 cases] get_thread_bindings - what future, pmap and bound-fn convey - is the map of every Var "
+                   "bound by an open frame to its innermost value",
+           "kind": "bounded", "bounded": True, "line": 0, "time_s": 0.0, "backend": "concrete execution of the real function", "verdict": "refuted" if failed else ("bounded-ok" if ran else "unknown")}
+    if failed:
+        rec.update(replay=p, reproduced=True, replay_output=outp[-1500:], model={})
+    return [{"key": "bounded:basilisp.lang.runtime:get_thread_bindings", "file": "src/basilisp/lang/runtime.py", "lines": [0, 0], "error": None if (ran or failed) else "the bounded check did not run: " + outp[-300:],
+             "obligations": [rec], "extra": True, "bounded": True, "bound": "every nesting of up to three binding frames, each over a non-empty subset of three Vars", "cases": 400,
+             "result": "a case fails" if failed else "all cases agree with the spec", "time_s": 0.0}]
+
+
+BINDINGS_BOUNDED = r'''
+import itertools
+from basilisp.lang import runtime as rt, symbol as sym, map as lmap
+ns = rt.Namespace.get_or_create(sym.symbol("c11-bounded"))
+VS = [rt.Var.intern(ns, sym.symbol("v%d" % i), "root%d" % i, dynamic=True) for i in range(3)]
+subsets = [c for k in (1, 2, 3) for c in itertools.combinations(range(3), k)]
+base = dict(rt.get_thread_bindings())   # whatever this process has bound already (e.g. *ns*) stays part of every answer
+bad, cases = [], 0
+for depth in range(0, 4):
+    for frames in itertools.product(subsets, repeat=depth):
+        cases += 1
+        want = dict(base)
+        for d, fr in enumerate(frames):
+            rt.push_thread_bindings(lmap.map({VS[i]: "f%d-%d" % (d, i) for i in fr}))
+            for i in fr:
+                want[VS[i]] = "f%d-%d" % (d, i)
+        try:
+            got = dict(rt.get_thread_bindings())
+        finally:
+            for _ in frames:
+                rt.pop_thread_bindings()
+        if got != want:
+            bad.append("frames %r: get_thread_bindings() has %r, expected %r" % (frames, sorted((str(k), v) for k, v in got.items() if k in VS), sorted((str(k), v) for k, v in want.items() if k in VS)))
+after = dict(rt.get_thread_bindings())
+if after != base:
+    bad.append("bindings are left over after all frames were popped")
+print("cases", cases)
+for line in bad[:6]:
+    print(line)
+print("REPRODUCED" if bad else "not reproduced")
+'''
 
 
 SET_REPLAY = r'''
